@@ -7,7 +7,7 @@ MODULE = "DrandProofs.C01"
 THEOREMS = ["Drand.Beacon." + t for t in [
     "c01_store_valid", "c01_write_paths_verified", "c01_preimage_binds", "c01_digest_binds", "c01_unchained_ignores_prev",
     "c01_served_from_store", "c01_served_valid", "c01_randomness", "c01_randomness_exits", "c01_exact_round",
-    "c01_missing_round_is_error", "c01_bootstrap_verified", "tie_bootstrap", "stack_put_spec", "put_inv", "aggCheck_candidate", "step_inv", "run_inv", "init_inv",
+    "c01_missing_round_is_error", "c01_bootstrap_verified", "tie_bootstrap", "c01_sync_writes_in_order", "c01_sync_first_is_next", "tie_broadcastNextPartial", "stack_put_spec", "put_inv", "aggCheck_candidate", "step_inv", "run_inv", "init_inv",
     "tie_digest_names", "tie_digest_layouts", "tie_scheme_store_chained", "tie_verifyBeacon", "tie_randomness",
     "tie_tryNode", "tie_tryAppend", "tie_aggregator", "tie_callbackPut", "tie_publicRand"]]
 TRUSTED = ["Lean 4 kernel; axioms per theorem under coverage.axioms",
